@@ -87,8 +87,17 @@ func ZZ_C20_Delaunay() {
 		}
 	}
 	zz.Reach("input")
-	m := triangulation.BowyerWatson(pts)
+	// the caller's slice may have spare capacity (the implementation appends its enclosing triangle to a copy -
+	// or, with capacity to spare, possibly into the caller's backing array); every oracle below reads the
+	// points as they were before the call
+	spare := []int{0, 3, 8}[zz.Choose("spare capacity", zz.Bound("SPARES"))]
+	arg := make([]vector2.Float64, n, n+spare)
+	copy(arg, pts)
+	m := triangulation.BowyerWatson(arg)
 	zz.Reach("triangulated")
+	for i := 0; i < n; i++ {
+		zz.Assert(arg[i].X() == pts[i].X() && arg[i].Y() == pts[i].Y(), "the caller's points are left as they were")
+	}
 	pos := m.Float3Attribute(modeling.PositionAttribute)
 	zz.Assert(pos.Len() == n, "one vertex per input point")
 	if pos.Len() != n {
